@@ -58,11 +58,18 @@ contract('parso.python.tokenize._close_fstring_if_necessary',
 # of a literal that spans lines is remembered from its first line.
 class_fields('FStringNode', last_string_start_pos='opt:pos')
 contract('parso.python.tokenize.FStringNode.allow_multiline', params={'self': 'ref:FStringNode'}, returns='bool',
-         ensures=['result == (len(self.quote) == 3)'], props=['C01'])
+         ensures=['result == (len(self.quote) == 3)'], props=['C01'],
+         replay=dict(observe={'quote': 'self.quote'},
+                     script='from parso.python.tokenize import FStringNode\nn = FStringNode({quote})\ngot = bool(n.allow_multiline())\n'
+                            'exp = len({quote}) == 3\nreturn None if got == exp else "allow_multiline %r for quote %r" % (got, {quote})\n'))
 # (the real result is False or the int format_spec_count; only its truth value is used, which is what the bool models)
 contract('parso.python.tokenize.FStringNode.is_in_format_spec', params={'self': 'ref:FStringNode'}, returns='bool',
          ensures=['result == (not (self.parentheses_count > self.format_spec_count) and self.format_spec_count != 0)'],
-         props=['C09'])
+         props=['C09'],
+         replay=dict(observe={'pc': 'self.parentheses_count', 'fc': 'self.format_spec_count'},
+                     script='from parso.python.tokenize import FStringNode\nn = FStringNode("\'")\nn.parentheses_count = {pc}\n'
+                            'n.format_spec_count = {fc}\ngot = bool(n.is_in_format_spec())\nexp = (not ({pc} > {fc})) and {fc} != 0\n'
+                            'return None if got == exp else "is_in_format_spec %r with depths %r/%r" % (got, {pc}, {fc})\n'))
 
 QUOTES_KNOWN = ('forall(lambda k: implies(0 <= k and k < len(fstring_stack), fstring_stack[k] is not None and '
                 'fstring_stack[k].quote in endpats and endpats[fstring_stack[k].quote] is not None and '
@@ -209,14 +216,28 @@ contract('parso.python.tokenize.FStringNode.__init__', params={'self': FSN, 'quo
 contract('parso.python.tokenize.FStringNode.open_parentheses', params={'self': FSN, 'character': 'str'},
          ensures=['self.parentheses_count == old(self.parentheses_count) + 1',
                   'self.format_spec_count == old(self.format_spec_count)'],
-         modifies=['self.parentheses_count'], props=['C09'])
+         modifies=['self.parentheses_count'], props=['C09'],
+         replay=dict(observe={'pc': 'self.parentheses_count', 'fc': 'self.format_spec_count'},
+                     script='from parso.python.tokenize import FStringNode\nn = FStringNode("\'")\nn.parentheses_count = {pc}\n'
+                            'n.format_spec_count = {fc}\nn.open_parentheses("{{")\n'
+                            'exp = ({pc} + 1, {fc})\ngot = (n.parentheses_count, n.format_spec_count)\n'
+                            'return None if got == exp else "open_parentheses leaves depths %r, expected %r" % (got, exp)\n'))
 contract('parso.python.tokenize.FStringNode.close_parentheses', params={'self': FSN, 'character': 'str'},
          ensures=['self.parentheses_count == old(self.parentheses_count) - 1',
                   'implies(self.parentheses_count == 0, self.format_spec_count == 0)',
                   'implies(self.parentheses_count != 0, self.format_spec_count == old(self.format_spec_count))'],
-         modifies=['self.parentheses_count', 'self.format_spec_count'], props=['C09'])
+         modifies=['self.parentheses_count', 'self.format_spec_count'], props=['C09'],
+         replay=dict(observe={'pc': 'self.parentheses_count', 'fc': 'self.format_spec_count'},
+                     script='from parso.python.tokenize import FStringNode\nn = FStringNode("\'")\nn.parentheses_count = {pc}\n'
+                            'n.format_spec_count = {fc}\nn.close_parentheses("}}")\n'
+                            'exp = ({pc} - 1, 0 if {pc} - 1 == 0 else {fc})\ngot = (n.parentheses_count, n.format_spec_count)\n'
+                            'return None if got == exp else "close_parentheses leaves depths %r, expected %r" % (got, exp)\n'))
 contract('parso.python.tokenize.FStringNode.is_in_expr', params={'self': FSN}, returns='bool',
-         ensures=['result == (self.parentheses_count > self.format_spec_count)'], props=['C09'])
+         ensures=['result == (self.parentheses_count > self.format_spec_count)'], props=['C09'],
+         replay=dict(observe={'pc': 'self.parentheses_count', 'fc': 'self.format_spec_count'},
+                     script='from parso.python.tokenize import FStringNode\nn = FStringNode("\'")\nn.parentheses_count = {pc}\n'
+                            'n.format_spec_count = {fc}\ngot = bool(n.is_in_expr())\nexp = {pc} > {fc}\n'
+                            'return None if got == exp else "is_in_expr %r with depths %r/%r" % (got, {pc}, {fc})\n'))
 
 
 # ---- tokenize_lines: totality (C02 / C09: the tokenizer never raises).  Facts about the per-version token tables are the
